@@ -2084,13 +2084,17 @@ FINDINGS = {
 }
 
 LEVEL_TEXT = (
-    "Lean theorems over all values / all strings for the Bool, Int, Bytes (base16/base64), Decimal, QName, Enum converters, "
-    "sort_types / deserialize priority, type_converter and int_datatype (Props/C05.lean), with the model tied to /repo by a "
-    "differential check of ConverterFactory.deserialize/serialize/test/sort_types/type_converter, DataType.from_value and the "
-    "namespaces helpers on hand-picked, bounded-exhaustive, random and malformed inputs."
+    "Lean theorems over all values / all strings for the Bool, Int, Bytes (base16/base64, wrapper classes, missing formats), Decimal, Float "
+    "(exact binary64 rounding and shortest repr computed in the model; the repr always has the shape the canonical-spelling theorems need), "
+    "QName, Enum, the XmlDate/XmlTime/XmlDateTime/XmlDuration/XmlPeriod proxies, date/time/datetime with strptime/strftime formats "
+    "(%Y-%m-%d, %H:%M:%S, %Y-%m-%dT%H:%M:%S), sort_types / deserialize priority over every table type, type_converter, test(strict) soundness and "
+    "DataType.from_value against the lexical spaces (Props/C05.lean, C05Types.lean, C05Float.lean, C05Dates.lean), with the model tied to /repo by a "
+    "differential check of ConverterFactory.deserialize/serialize/test/sort_types/type_converter, DataType.from_value, float(str)/repr(float), "
+    "strptime/strftime and the namespaces helpers on hand-picked, bounded-exhaustive, random and malformed inputs."
 )
 LEVEL_NOTE = (
-    "Trusted: Lean kernel; hand models of CPython int()/float() grammar/Decimal()/format 'f'/binascii/strip/split; "
-    "XSD lexical grammar transcriptions; CPython float rounding and repr as hypotheses; the sampling correspondence check. "
-    "XmlDuration/XmlPeriod/datetime converters are not modelled (oracle only)."
+    "Trusted: Lean kernel; hand models of CPython int()/float() grammar and rounding/repr/Decimal()/format 'f'/binascii/strip/split/"
+    "_strptime (numeric directives %Y %m %d %H %M %S %f only) and glibc strftime; XSD lexical grammar transcriptions; the sampling "
+    "correspondence check (repr(float(s)) is compared on all floats with <= 3 significant digits x exponents -330..310 in the thorough tier). "
+    "Aware datetimes (%z), named-month/weekday directives and locale-dependent formats are outside the model."
 )
